@@ -185,14 +185,17 @@ def leaderAll (c : Cluster) : List (String × List Int) → Int → Except Route
       | .ok cur' => leaderAll c rest cur'
 
 /-- listoffsets.Request.Broker: only `Topics[0].Partitions[0]` is looked at (index panics are explicit);
-an unknown topic/partition gives −1, an unknown leader id reads the zero broker (id 0). -/
+an unknown topic / partition / leader gives −1 (the control connection: any broker answers with the error code). -/
 def leaderFirst (c : Cluster) (tps : List (String × List Int)) : Except RouteErr Int :=
   match tps with
   | [] => .error .panic
   | (_, []) :: _ => .error .panic
   | (tn, p :: _) :: _ =>
     match ((lookupD c.topics tn Topic.zero).partitions.find? (fun e => e.2.id == p)) with
-    | some e => .ok (lookupD c.brokers e.2.leader Broker.zero).id
+    | some e =>
+      match c.brokers.lookup e.2.leader with
+      | some b => .ok b.id
+      | none => .ok (-1)
     | none => .ok (-1)
 
 /-- `return cluster.Brokers[cluster.Controller], nil` -/
